@@ -8,7 +8,7 @@
    each record; a mismatch does not stop validation, its index is collected. *)
 EXTENDS Naturals, Sequences, TLC, Json
 CONSTANTS Kinds, NameSet, MaxInputs, Reqs, Defs, Types, DeclSpells, CallSpells, MaxSecrets, SecReqs, MaxOutputs,
-          ValueKinds, Locs, UsesForms, Extras, Inherit, Skips
+          ValueKinds, Locs, UsesForms, Usings, Extras, Inherit, Skips
 VARIABLES l, mism, drift, d, call, tc
 
 C == INSTANCE Calls
